@@ -157,6 +157,9 @@ func run(v avfs.VFS, o opT) result {
 
 	var fh avfs.File
 
+	// the bits of the alphabet's mode dimension, or'ed into every mode argument
+	bits := fs.FileMode(o.Mode)
+
 	name := func() {
 		r.do("Name", func(s *sub) error { s.Paths = []string{fh.Name()}; return nil })
 	}
@@ -268,7 +271,7 @@ func run(v avfs.VFS, o opT) result {
 		closeIt()
 	case "CreateExcl":
 		if !r.do("", func(*sub) (err error) {
-			fh, err = v.OpenFile(p, os.O_RDWR|os.O_CREATE|os.O_EXCL, 0o600)
+			fh, err = v.OpenFile(p, os.O_RDWR|os.O_CREATE|os.O_EXCL, 0o600|bits)
 
 			return err
 		}) {
@@ -278,13 +281,13 @@ func run(v avfs.VFS, o opT) result {
 		name()
 		closeIt()
 	case "Mkdir":
-		errOnly(func() error { return v.Mkdir(p, 0o755) })
+		errOnly(func() error { return v.Mkdir(p, 0o755|bits) })
 	case "MkdirAll":
-		errOnly(func() error { return v.MkdirAll(p, 0o750) })
+		errOnly(func() error { return v.MkdirAll(p, 0o750|bits) })
 	case "WriteFile":
 		errOnly(func() error {
 			data := []byte("W")
-			err := v.WriteFile(p, data, 0o644)
+			err := v.WriteFile(p, data, 0o644|bits)
 			fsx.Scribble(data)
 
 			return err
@@ -296,7 +299,26 @@ func run(v avfs.VFS, o opT) result {
 	case "Truncate":
 		errOnly(func() error { return v.Truncate(p, 1) })
 	case "Chmod":
-		errOnly(func() error { return v.Chmod(p, 0o700) })
+		errOnly(func() error { return v.Chmod(p, 0o700|bits) })
+	case "OpenChmod":
+		if !r.do("", func(*sub) (err error) { fh, err = v.Open(p); return err }) {
+			break
+		}
+
+		// (Stat first: whether the handle is one at all - a standalone file system
+		// may answer Open("") with a handle whose every method is refused)
+		r.do("Stat", func(s *sub) error {
+			fi, err := fh.Stat()
+			if err == nil {
+				s.Val = infoVal(v, fi)
+			}
+
+			return err
+		})
+		r.do("Chmod", func(*sub) error { return fh.Chmod(0o700 | bits) })
+		closeIt()
+	case "HandleRenamed", "HandleRemoved", "HandleReplaced":
+		runHandle(v, o, r)
 	case "Chtimes":
 		t := fsx.FixedTime.Add(chtimesDelta)
 		errOnly(func() error { return v.Chtimes(p, t, t) })
@@ -383,6 +405,182 @@ func run(v avfs.VFS, o opT) result {
 	}
 
 	return r.res
+}
+
+// handleFree is the name an object is renamed to by the handle calls: a free
+// name in the root that is not a segment of the alphabet, like the "x" of the
+// link pairs (a relative symbolic link of the base renamed to another depth
+// leads elsewhere - out of B in the base, to the root in a chroot: the family
+// of KF-C10-009; the states so reached are not named by later calls).
+const handleFree = "/x"
+
+// runHandle executes a handle call (ops.go, handleCalls): a handle on o.A - opened
+// read-write (sub "", the first one), read-only if that is refused (sub "Open") -
+// outlives the name it was opened by. The name is taken away through v:
+//
+//	HandleRenamed:  v.Rename(p, handleFree)                                  sub "Rename"
+//	HandleRemoved:  v.RemoveAll(p)                                           sub "RemoveAll"
+//	HandleReplaced: v.Rename(p, handleFree), then a new object of the other
+//	                kind under the name p (a directory for a file handle,
+//	                a file for a directory handle)                 subs "Rename", "New"
+//
+// whatever the outcome of these calls (a refused one leaves the name in place:
+// the methods are then those of an ordinary handle). Then every method of
+// avfs.File, in an order that lets each act on what the former left (reads
+// before writes, Chdir last, Close at the end): Name, Stat, ReadDir,
+// Readdirnames, Read, ReadAt, Seek, Write, WriteAt, WriteString, Truncate, Sync,
+// Chmod, Chown, Fd (only whether it answers), Stat again, Chdir + Getwd +
+// ReadDir(".") by name from where Chdir led (if it did), Close, and Stat of the handle after
+// Close. Errors of the methods carry the handle's name: compared like every
+// error path.
+func runHandle(v avfs.VFS, o opT, r *runner) {
+	p := o.A
+
+	var (
+		fh  avfs.File
+		dir bool
+	)
+
+	if !r.do("", func(*sub) (err error) { fh, err = v.OpenFile(p, os.O_RDWR, 0); return err }) {
+		if !r.do("Open", func(*sub) (err error) { fh, err = v.Open(p); return err }) {
+			return
+		}
+	}
+
+	stat := func(label string) {
+		r.do(label, func(s *sub) error {
+			fi, err := fh.Stat()
+			if err == nil {
+				s.Val = infoVal(v, fi)
+				dir = fi.IsDir()
+			}
+
+			return err
+		})
+	}
+
+	stat("Stat0")
+
+	switch o.Call {
+	case "HandleRenamed":
+		r.do("Rename", func(*sub) error { return v.Rename(p, handleFree) })
+	case "HandleRemoved":
+		r.do("RemoveAll", func(*sub) error { return v.RemoveAll(p) })
+	case "HandleReplaced":
+		r.do("Rename", func(*sub) error { return v.Rename(p, handleFree) })
+		r.do("New", func(*sub) error {
+			if dir {
+				data := []byte("N")
+				err := v.WriteFile(p, data, 0o644)
+				fsx.Scribble(data)
+
+				return err
+			}
+
+			return v.Mkdir(p, 0o755)
+		})
+	}
+
+	r.do("Name", func(s *sub) error { s.Paths = []string{fh.Name()}; return nil })
+	stat("Stat")
+	r.do("ReadDir", func(s *sub) error {
+		es, err := fh.ReadDir(-1)
+
+		var names []string
+		for _, e := range es {
+			names = append(names, e.Name()+fsx.TypeChar(e.Type()))
+		}
+
+		s.Val = strings.Join(names, ",")
+
+		return err
+	})
+	r.do("Readdirnames", func(s *sub) error {
+		n, err := fh.Readdirnames(-1)
+		s.Val = strings.Join(n, ",")
+
+		return err
+	})
+	r.do("Read", func(s *sub) error {
+		b := make([]byte, 8)
+		n, err := fh.Read(b)
+		s.Val = fmt.Sprintf("%q", b[:n])
+
+		return err
+	})
+	r.do("ReadAt", func(s *sub) error {
+		b := make([]byte, 8)
+		n, err := fh.ReadAt(b, 0)
+		s.Val = fmt.Sprintf("%q", b[:n])
+
+		return err
+	})
+	r.do("Seek", func(s *sub) error {
+		n, err := fh.Seek(0, 0)
+		s.Val = fmt.Sprint(n)
+
+		return err
+	})
+	r.do("Write", func(s *sub) error {
+		data := []byte("H")
+		n, err := fh.Write(data)
+		fsx.Scribble(data)
+		s.Val = fmt.Sprint(n)
+
+		return err
+	})
+	r.do("WriteAt", func(s *sub) error {
+		data := []byte("A")
+		n, err := fh.WriteAt(data, 2)
+		fsx.Scribble(data)
+		s.Val = fmt.Sprint(n)
+
+		return err
+	})
+	r.do("WriteString", func(s *sub) error {
+		n, err := fh.WriteString("S")
+		s.Val = fmt.Sprint(n)
+
+		return err
+	})
+	r.do("Truncate", func(*sub) error { return fh.Truncate(4) })
+	r.do("Sync", func(*sub) error { return fh.Sync() })
+	r.do("Chmod", func(*sub) error { return fh.Chmod(0o700) })
+	r.do("Chown", func(*sub) error { return fh.Chown(0, 0) })
+	r.do("Fd", func(*sub) error { _ = fh.Fd(); return nil })
+	stat("Stat2")
+	entered := r.do("Chdir", func(*sub) error { return fh.Chdir() })
+	r.do("Getwd", func(s *sub) error {
+		d, err := v.Getwd()
+		s.Paths = []string{d}
+
+		return err
+	})
+
+	if entered {
+		// (only from where the handle led: the current directory of before the
+		// call may be the root, which a standalone OrefaFS cannot name. The error
+		// path of this call is relative to the directory just entered, not to the
+		// one the operation started in, from which error paths are judged: the
+		// outcome is compared, the path is not)
+		r.do("ReadDir.", func(s *sub) error {
+			es, err := v.ReadDir(".")
+
+			var names []string
+			for _, e := range es {
+				names = append(names, e.Name()+fsx.TypeChar(e.Type()))
+			}
+
+			s.Val = strings.Join(names, ",")
+
+			return err
+		})
+
+		r.res.Subs[len(r.res.Subs)-1].ErrPaths = nil
+	}
+
+	r.do("Close", func(*sub) error { return fh.Close() })
+	stat("StatClosed")
 }
 
 // baseProbes are the cwd-dependent calls made through the wrapper (and on the
